@@ -123,9 +123,8 @@ def project(n, state, srv_locals, pcs, arrived, granted):
             "arrived": list(arrived), "granted": list(granted)}
 
 
-def coq_obs(out, o):
-    return "(mkObs %d %s %s %s %s %s %s %s %s)" % (
-        out,
+def coq_obs(o):
+    return "(mkObs %s %s %s %s %s %s %s %s)" % (
         vlib.coq_list([vlib.coq_list([coq_msg(m) for m in b]) for b in o["net"]]),
         vlib.coq_list([vlib.coq_bool(b) for b in o["hasLock"]]),
         "None" if o["smsg"] is None else "(Some %s)" % coq_msg(o["smsg"]),
@@ -146,6 +145,7 @@ def analyse(case, res):
     arrived, granted = [], []
     nontriv = False
     prev_state = res["init"]
+    last_o = None
     for i, ob in enumerate(res["steps"]):
         proc = ob["proc"]
         p = 0 if proc == "server" else int(proc[1:])
@@ -221,7 +221,10 @@ def analyse(case, res):
             o = project(n, post, srv_locals, pcs, arrived, granted)
             if len(o["q"]) >= 2:
                 nontriv = True
-            coq_steps.append("((%d, %s), %s)" % (p, "None" if pick is None else "Some " + coq_msg(pick), coq_obs(OUT[out], o)))
+            same = out != "commit" and post == pre and coq_steps and last_o == o
+            coq_steps.append("((%d,%s),(%d,%s))" % (p, "None" if pick is None else "Some " + coq_msg(pick), OUT[out],
+                                                     "None" if same else "Some " + coq_obs(o)))
+            last_o = o
         except Unencodable as e:
             breaks.append("step %d: observation outside the typed model's universe: %s" % (i, e))
             break
@@ -279,20 +282,28 @@ def run(ctx):
                    for (_, e, _, r) in walks[:4]]
     # tie B: the model runs the same schedules inside Coq; every post-state compared
     if ctx.coq_ok:
-        shard = 150
-        for s in range(0, len(walks), shard):
+        shard = 60
+        from concurrent.futures import ThreadPoolExecutor
+        def eval_shard(s):
             part = walks[s:s + shard]
             body = ("From PGV Require Import C15.Model.\n"
                     "Definition walks : list walk :=\n [" +
                     ";\n ".join("(%d, [%s])" % (e["n"], ";\n   ".join(cs)) for (_, e, cs, _) in part) + "].\n"
                     "Definition M := Eval vm_compute in mismatches_from 0 walks.\nPrint M.\n")
-            rc, out, err = vlib.coq_eval("C15_walks_%d" % s, body)
+            return (s,) + tuple(vlib.coq_eval("C15_walks_%d" % s, body))
+        with ThreadPoolExecutor(max_workers=3) as ex:
+            results = list(ex.map(eval_shard, range(0, len(walks), shard)))
+        for (s, rc, out, err) in results:
+            part = walks[s:s + shard]
             mm = vlib.parse_nat_list(out, "M") if rc == 0 else None
             if mm is None:
                 ctx.breaks.append({"what": "correspondence evaluation C15_walks did not compile", "detail": (out + err)[-2000:]})
                 break
             for k in mm:
                 c, e, cs, r = part[k]
+                if len(ctx.breaks) >= 3:     # detail only for the first few; the rest are counted
+                    ctx.extra["further_mismatching_walks"] = ctx.extra.get("further_mismatching_walks", 0) + 1
+                    continue
                 rc2, out2, _ = vlib.coq_eval("C15_one", "From PGV Require Import C15.Model.\n"
                                              "Eval vm_compute in first_mismatch %d init 0 [%s].\n" % (e["n"], ";\n".join(cs)))
                 idx = None
